@@ -350,7 +350,7 @@ PROPS = {
     "C17": {
         "module": "netown", "pkg": "./checks", "level": "exploration",
         "jobs": [
-            {"test": "TestC17Scenarios", "quick": 1, "thorough": 1, "env_thorough": {"VERIF_C17_BIG": "1"}},
+            {"test": "TestC17Scenarios", "quick": 1, "thorough": 1, "env_thorough": {"VERIF_C17_BIG": "1", "VERIF_CASE_WATCHDOG": "1200"}, "env_quick": {"VERIF_CASE_WATCHDOG": "600"}},
             {"test": "TestC17", "quick": 150, "thorough": 6000, "shards_thorough": 6},
         ],
         "rule": "Real TLS over loopback between 4 parties built with net.Listen / ServiceConnections / NewSocketRemoteParty. TestC17: rapid draws 1..10 "
